@@ -575,11 +575,15 @@ type BStormPlan struct {
 	// goroutines can be between "locked c.L" and "inside Wait" at the same time; the K waiters then enter
 	// Wait together, right after a Broadcast that found nobody waiting.
 	Shared bool `json:"shared,omitempty"`
+	// Burst: before anybody waits, that many goroutines call Signal at the same instant (nobody is there to
+	// take the wakeups). Signal never waits for anybody: all of them have returned at the next quiescence.
+	Burst int `json:"burst,omitempty"`
 }
 
 func genBStorm(t *rapid.T) BStormPlan {
 	return BStormPlan{K: rapid.IntRange(2, 4).Draw(t, "k"), Noise: rapid.SampledFrom([]string{"ended-waits", "ended-waits", "signals", "both"}).Draw(t, "noise"),
-		M: rapid.IntRange(1, 3).Draw(t, "m"), Rounds: rapid.IntRange(100, 400).Draw(t, "rounds"), Shared: rapid.IntRange(0, 2).Draw(t, "shared") == 0}
+		M: rapid.IntRange(1, 3).Draw(t, "m"), Rounds: rapid.IntRange(100, 400).Draw(t, "rounds"), Shared: rapid.IntRange(0, 2).Draw(t, "shared") == 0,
+		Burst: rapid.SampledFrom([]int{0, 0, 2, 3, 4}).Draw(t, "burst")}
 }
 
 type chanLock chan struct{}
@@ -609,6 +613,27 @@ func runBStorm(p BStormPlan) (out vk.Outcome, verr error) {
 					l = new(sync.RWMutex).RLocker() // never blocks here: nobody takes the write side
 				}
 				c := xsync.NewContextCond(l)
+				if p.Burst > 0 {
+					start := make(chan struct{})
+					var in atomic.Int32
+					for b := 0; b < p.Burst; b++ {
+						in.Add(1)
+						go func() {
+							<-start
+							c.Signal()
+							in.Add(-1)
+						}()
+					}
+					synctest.Wait()
+					close(start)
+					synctest.Wait()
+					if n := in.Load(); n != 0 {
+						// (do not touch the cond again: a Signal stuck inside it may hold its internal lock)
+						vk.Established(vk.Violf("signal-blocked", "round %d: %d of %d Signal calls issued at the same instant (nobody waiting) have not returned at quiescence", round, n, p.Burst))
+						verr = vk.Violf("signal-blocked", "round %d: %d of %d Signal calls issued at the same instant (nobody waiting) have not returned at quiescence", round, n, p.Burst)
+						return
+					}
+				}
 				if p.Shared {
 					c.Broadcast() // nobody is waiting yet
 				}
